@@ -176,7 +176,7 @@ def tasks_for(tier: str, which: str):
 
 # ------------------------------------------------------------------ oracles
 def is_default_tree_claim(gen, kw):
-    return gen in ("gen_dfs", "gen_wilson") and not kw
+    return gen in ("gen_dfs", "gen_wilson", "gen_prim") and not kw  # gen_prim is the depth-first generator with a randomized stack
 
 
 def oracle_c01(gen, shape, kw, m):
